@@ -133,16 +133,25 @@ Proof.
 Qed.
 
 (** PCC: the coarse crop is either the symmetric window or the whole axis, and the unwrapped
-    arg-max is an integer within trunc(max_shifts) *)
+    arg-max is an integer within round(max_shifts) = floor(max_shifts + 1/2) *)
+Lemma pc_im_spec m : (0 <= m)%Q ->
+  0 <= pc_im m /\ (inject_Z (pc_im m) <= m + (1#2))%Q /\ (m - (1#2) < inject_Z (pc_im m))%Q.
+Proof.
+  intro Hm. unfold pc_im, pcc_int_shifts. rewrite Qtrunc_Z.
+  pose proof (Qfloor_le (m + (1#2))) as H1. pose proof (Qlt_floor (m + (1#2))) as H2.
+  rewrite inject_Z_plus1 in H2.
+  assert (0 <= Qfloor (m + (1#2))) as H0 by (apply Zle_Qfloor; change (inject_Z 0) with 0%Q; lra).
+  repeat split; [exact H0 | exact H1 | lra].
+Qed.
+
 Lemma pc_crop_shape N m : 1 <= N -> (0 <= m)%Q ->
   let im := pc_im m in
   0 <= im /\ 1 <= pc_P N m /\
   ((pc_P N m = 2 * im + 1 /\ pc_start N m = N / 2 - im) \/ (pc_P N m = N /\ pc_start N m = 0 /\ N / 2 <= im)).
 Proof.
-  intros HN Hm. cbn zeta. unfold pc_P, pc_start, pc_stop, pc_im, pcc_int_shifts, crop_by_max_shifts_start,
-    crop_by_max_shifts_stop, crop_by_max_shifts_center. rewrite !Qtrunc_Z.
-  assert (0 <= Qtrunc m) as H0 by (destruct (Qtrunc_bounds m) as [Hb _]; destruct (Hb Hm) as (_ & _ & H); exact H).
-  lia.
+  intros HN Hm. cbn zeta. destruct (pc_im_spec m Hm) as (H0 & _ & _).
+  unfold pc_P, pc_start, pc_stop, crop_by_max_shifts_start, crop_by_max_shifts_stop, crop_by_max_shifts_center.
+  rewrite !Qtrunc_Z. set (im := pc_im m) in *. lia.
 Qed.
 
 Lemma pc_unwrap_bound P j im c :
@@ -167,39 +176,54 @@ Proof.
   - apply Qltb_ge in E. rewrite <- Zle_Qle in E. lia.
 Qed.
 
-(** PCC refinement: the window contains the coarse peak and every index keeps |shift| <= m *)
-Lemma pr_window (s : Z) (m : Q) :
-  (- m <= inject_Z s <= m)%Q ->
-  pr_start 20 s m <= 15 < pr_stop 20 s m /\ 0 <= pr_start 20 s m /\ pr_stop 20 s m <= 30.
+(** PCC refinement: for a coarse peak s with |s| <= round(m) the window is a non-empty part of the
+    up-sampled region, and every index keeps |shift| <= m (+ 5e-5: the 1e-3 guard against float32 rounding) *)
+Lemma pr_lr (s : Z) (m : Q) :
+  let l := pcc_lshift (inject_Z s) m 20 in let r := pcc_rshift (inject_Z s) m 20 in
+  (inject_Z l <= (inject_Z s + m) * (20#1) + (1#1000) < inject_Z l + 1)%Q /\
+  (inject_Z r <= (m - inject_Z s) * (20#1) + (1#1000) < inject_Z r + 1)%Q.
 Proof.
-  intros [H1 H2]. unfold pr_start, pr_stop, pcc_start, pcc_stop.
+  cbn zeta. unfold pcc_lshift, pcc_rshift. rewrite !Qtrunc_Z. change (inject_Z 20) with (20#1).
+  split; (split; [apply Qfloor_le | rewrite <- inject_Z_plus1; apply Qlt_floor]).
+Qed.
+
+Lemma pr_window (s : Z) (m : Q) :
+  (0 <= m)%Q -> (- m - (1#2) <= inject_Z s <= m + (1#2))%Q ->
+  0 <= pr_start 20 s m < pr_stop 20 s m /\ pr_stop 20 s m <= 30.
+Proof.
+  intros Hm [H1 H2]. unfold pr_start, pr_stop, pcc_start, pcc_stop.
   assert (pr_region 20 = 30) as Hr by (vm_compute; reflexivity).
   assert (Qtrunc (pr_dft 20) = 15) as Hd by (vm_compute; reflexivity).
-  rewrite Hr, Hd. unfold pcc_lshift, pcc_rshift.
-  assert (0 <= (inject_Z s + m) * inject_Z 20)%Q as Hl by (change (inject_Z 20) with (20#1); lra).
-  assert (0 <= (m - inject_Z s) * inject_Z 20)%Q as Hrr by (change (inject_Z 20) with (20#1); lra).
-  destruct (Qtrunc_bounds ((inject_Z s + m) * inject_Z 20)) as [Ha _]. destruct (Ha Hl) as (_ & _ & Ha3).
-  destruct (Qtrunc_bounds ((m - inject_Z s) * inject_Z 20)) as [Hb _]. destruct (Hb Hrr) as (_ & _ & Hb3).
+  rewrite Hr, Hd. destruct (pr_lr s m) as [[Ha1 Ha2] [Hb1 Hb2]].
+  set (l := pcc_lshift (inject_Z s) m 20) in *. set (r := pcc_rshift (inject_Z s) m 20) in *.
+  assert (-11 <= l) as Hl.
+  { apply Z.lt_succ_r. rewrite Zlt_Qlt. unfold Z.succ. rewrite inject_Z_plus. change (inject_Z (-11)) with (-11#1)%Q. change (inject_Z 1) with 1%Q. lra. }
+  assert (-11 <= r) as Hrr.
+  { apply Z.lt_succ_r. rewrite Zlt_Qlt. unfold Z.succ. rewrite inject_Z_plus. change (inject_Z (-11)) with (-11#1)%Q. change (inject_Z 1) with 1%Q. lra. }
+  assert (0 <= l + r) as Hsum.
+  { destruct (Qlt_le_dec m (1#40)) as [Hsmall | Hbig].
+    - (* the only admissible coarse peak is 0 *)
+      assert (s = 0) as ->.
+      { assert (-1 < s < 1) as Hs; [|lia]. rewrite !Zlt_Qlt. change (inject_Z (-1)) with (-1#1)%Q. change (inject_Z 1) with 1%Q. lra. }
+      change (inject_Z 0) with 0%Q in *.
+      assert (-1 < l) as Hl0 by (rewrite Zlt_Qlt; change (inject_Z (-1)) with (-1#1)%Q; lra).
+      assert (-1 < r) as Hr0 by (rewrite Zlt_Qlt; change (inject_Z (-1)) with (-1#1)%Q; lra).
+      lia.
+    - assert (-1 < l + r) as Hx; [|lia]. rewrite Zlt_Qlt. rewrite inject_Z_plus. change (inject_Z (-1)) with (-1#1)%Q. lra. }
   lia.
 Qed.
 
 Lemma pr_shift_bound (s : Z) (m : Q) (idx : Z) :
-  (- m <= inject_Z s <= m)%Q ->
   0 <= idx < pr_stop 20 s m - pr_start 20 s m ->
-  (- m <= pr_final 20 s m idx <= m)%Q.
+  (- m - (1#20000) <= pr_final 20 s m idx <= m + (1#20000))%Q.
 Proof.
-  intros [H1 H2] Hidx. unfold pr_final, pcc_final, pcc_maxima.
+  intros Hidx. unfold pr_final, pcc_final, pcc_maxima.
   assert (pr_dft 20 == 15#1)%Q as Hd by (vm_compute; reflexivity).
   rewrite Hd. unfold pr_start, pr_stop, pcc_start, pcc_stop in *.
   assert (pr_region 20 = 30) as Hr by (vm_compute; reflexivity).
   assert (Qtrunc (pr_dft 20) = 15) as Hd2 by (vm_compute; reflexivity).
-  rewrite Hr, Hd2 in *. unfold pcc_lshift, pcc_rshift in *.
-  assert (0 <= (inject_Z s + m) * inject_Z 20)%Q as Hl by (change (inject_Z 20) with (20#1); lra).
-  assert (0 <= (m - inject_Z s) * inject_Z 20)%Q as Hrr by (change (inject_Z 20) with (20#1); lra).
-  destruct (Qtrunc_bounds ((inject_Z s + m) * inject_Z 20)) as [Ha _]. destruct (Ha Hl) as (Ha1 & _ & Ha3).
-  destruct (Qtrunc_bounds ((m - inject_Z s) * inject_Z 20)) as [Hb _]. destruct (Hb Hrr) as (Hb1 & _ & Hb3).
-  set (l := Qtrunc ((inject_Z s + m) * inject_Z 20)) in *.
-  set (r := Qtrunc ((m - inject_Z s) * inject_Z 20)) in *.
+  rewrite Hr, Hd2 in *. destruct (pr_lr s m) as [[Ha1 Ha2] [Hb1 Hb2]].
+  set (l := pcc_lshift (inject_Z s) m 20) in *. set (r := pcc_rshift (inject_Z s) m 20) in *.
   assert (15 - l <= idx + Z.max (15 - l) 0 <= 15 + r) as [Hi1 Hi2] by lia.
   rewrite Zle_Qle in Hi1, Hi2. rewrite inject_Z_minus in Hi1. rewrite (inject_Z_plus 15 r) in Hi2.
   change (inject_Z 15) with (15#1) in *. change (inject_Z 20) with (20#1) in *.
@@ -215,4 +239,8 @@ Example ex_fsc_031 : fs_n (31#100) = 3 /\ up_bounds 3 2 (31#100) = (-20, -14) /\
 Proof. vm_compute. repeat split. Qed.
 
 Example ex_pcc_zero : pc_P 8 0 = 1 /\ pr_start 20 0 0 = 15 /\ pr_stop 20 0 0 = 16 /\ (pr_final 20 0 0 0 == 0)%Q.
+Proof. vm_compute. repeat split. Qed.
+
+(* max_shifts = 1.9: the coarse peak may be 2, and the last index of the restricted window is exactly 1.9 *)
+Example ex_pcc_edge : pc_im (19#10) = 2 /\ pr_start 20 2 (19#10) = 0 /\ pr_stop 20 2 (19#10) = 14 /\ (pr_final 20 2 (19#10) 13 == 19#10)%Q.
 Proof. vm_compute. repeat split. Qed.
